@@ -507,6 +507,13 @@ class TB:
         n1, f1 = nearest(d1[1])
         n2, f2 = nearest(d2[1])
         if n1 is None or n1 != n2 or len(f1) != 1 or len(f2) != 1:
+            # `if c1 && c2 { a } else { b }` / `match x { [.., 0] => a, _ => b }`: one value behind a chain of tests, the other on
+            # every way out of the chain -> nested choice ite(c_outer, ite(c_inner, a, b), b)
+            for (dx, dy, vx, vy) in ((d1, d2, v1, v2), (d2, d1, v2, v1)):
+                out = self._chain_phi(g, dx[1], dy[1], vx, vy)
+                if out is not None:
+                    self._memo[key] = out
+                    return out
             return None
         a, c = f1[0], f2[0]
         # two different outcomes of the same test
@@ -524,6 +531,35 @@ class TB:
             a, c, v1, v2 = c, a, v2, v1
         out = _canon_ite(("ite", a, v1, v2))
         self._memo[key] = out
+        return out
+
+    def _chain_phi(self, g, bx, by, vx, vy):
+        """value vx is assigned in block bx behind the two-way tests e_1 (nearest) .. e_j whose other edges all lead straight to
+        block by (where vy is assigned) and are its only predecessors"""
+        b = self.body
+        preds_y = [(p, lab) for (p, lab) in b.pred[by]]
+        if len(preds_y) < 2:
+            return None
+        conds = []
+        for (d, s_, lab) in g.dominating_edges(bx):
+            if b.term(d)["k"] != "switch":
+                continue
+            succ = b.succ[d]
+            if len(succ) != 2 or not any(t_ == by for (t_, _) in succ) or not any(t_ == s_ for (t_, _) in succ) or s_ == by:
+                break
+            c_ = g.edge_condition(d, s_, lab)
+            if c_ is None:
+                return None
+            conds.append((d, c_))
+            if len(conds) == len(preds_y):
+                break
+        if len(conds) != len(preds_y) or {p for (p, _) in preds_y} != {d for (d, _) in conds}:
+            return None
+        if not b.dominates(conds[-1][0], by):
+            return None
+        out = None
+        for (d, c_) in conds:                # innermost first
+            out = ("ite", c_, vx if out is None else out, vy)
         return out
 
     def _reach_from(self, bb):
